@@ -455,6 +455,10 @@ pub struct SvcCase {
     /// Clock advances (ms) driving the run.
     advances: Vec<u64>,
     ping: bool,
+    /// The client stays idle for this long (in 4 clock steps) after the connection is up, then all callers start at once:
+    /// whatever the server has made available in the meantime is taken at one instant.
+    #[serde(default)]
+    idle_ms: u64,
 }
 
 pub fn gen_svc(ch: &mut Choices) -> SvcCase {
@@ -466,6 +470,15 @@ pub fn gen_svc(ch: &mut Choices) -> SvcCase {
         calls_per_caller: 1 + ch.below(4),
         advances: (0..5 + ch.below(30)).map(|_| ch.pick(&[0u64, 1, 10, 100, 250, 1000, 5000])).collect(),
         ping: ch.chance(1, 3),
+        idle_ms: 0,
+    }
+    .with_idle(ch)
+}
+
+impl SvcCase {
+    fn with_idle(mut self, ch: &mut Choices) -> Self {
+        self.idle_ms = self.refresh_ms * ch.pick(&[0u64, 0, 0, 3, 10, 25]);
+        self
     }
 }
 
@@ -535,6 +548,13 @@ pub fn check_svc(case: &SvcCase, st: &mut Stats) -> Result<(), String> {
         let max_open: Arc<AtomicI64> = Arc::new(0.into());
         let req = netvalues::sample(wire_req, &mut Choices::new(vec![3; 40]));
         let mut callers = vec![];
+        det::barrier().await;
+        for _ in 0..4 {
+            if case.idle_ms > 0 {
+                life.clock.advance(time::Duration::milliseconds((case.idle_ms / 4).max(1) as i64));
+                det::barrier().await;
+            }
+        }
         for _ in 0..case.callers {
             let (ctx, q, opens, clock, req, n, open_now, max_open) = (life.child(), q.clone(), opens.clone(), life.clock.clone(), req.clone(), case.calls_per_caller, open_now.clone(), max_open.clone());
             callers.push(tokio::spawn(async move {
@@ -591,6 +611,9 @@ pub fn check_svc(case: &SvcCase, st: &mut Stats) -> Result<(), String> {
             Ok(())
         })();
         st.class(rpc_name);
+        if case.idle_ms > 0 {
+            st.class("client_idles_then_fires_everything_at_once");
+        }
         st.max("max_requests_started", opens_v.len() as u64);
         if opens_v.len() > rate.burst + 1 && case.callers > inflight as usize {
             st.nontrivial(common::fingerprint(case));
